@@ -341,6 +341,8 @@ def dict_method(I, st, meth, obj, args, kwargs, node):
 
 def opt_val(I, st, vt, term, none):
     if is_ref(vt) or vt in ("Any", "Exc"):
+        if st.spec_depth == 0 and is_ref(vt):
+            st.assume(z3.Implies(z3.Not(none), term != NULL))     # well-typed heap: stored values are not None
         v = Val(("Opt", vt), z3.If(none, NULL, term))
     else:
         v = Val(("Opt", vt), term, none)
